@@ -331,7 +331,8 @@ class Server(object):
                 app.state == 'login':
             step = steps[app.login_pc]
             op = step[0]
-            if op in ('compress', 'encrypt', 'success') and \
+            if op in ('compress', 'compress_noswitch', 'encrypt',
+                      'success') and \
                     self._plugins_pending(app):
                 app.waiting = 'plugins'
                 return
@@ -342,6 +343,11 @@ class Server(object):
                            'set-compression', t)
                 app.out_threshold = t
                 app.deframer.threshold = t
+            elif op == 'compress_noswitch':
+                # the packet is sent, but the framing stays as it is (the
+                # scenario's client is known to ignore it)
+                self._send(app, ids['cb.login.set_compression'],
+                           varint(step[1]), 'set-compression', step[1])
             elif op == 'encrypt':
                 o = step[1]
                 key = KEYS[o['bits']]
